@@ -6,10 +6,18 @@ For each synthetic data set the REAL Calculator runs on the original presentatio
   w-scale    all weights multiplied by a common positive factor
   col-perm   static-modulus columns reordered;  col-upper  column names upper-cased
   row-perm   rows of the static table reordered
-  vol-rev / vol-shuffle   volume blocks of the phonon file reversed / shuffled: same results OR an error, never different numbers
+  vol-inc / vol-rev / vol-swap / vol-shuffle   volume blocks of the phonon file listed by increasing volume / reversed / with ONE
+             adjacent pair exchanged / shuffled: same results OR an error, never different numbers
+  vol-repeat family   the phonon file gets a REPEATED volume (block i+1 carries the volume of block i, its own frequencies): the
+             outcome of that file is recorded (accepted | rejected); its re-listings vol-eqswap (the two equal-volume blocks
+             exchanged), vol-repeat-rev (reversed), vol-repeat-apart (one of the two moved to the end) must each be rejected or give
+             the numbers of the file they re-list
   w-normalise   weights divided by their sum (multiplicities vs. normalised weights, Σw = 1)
   col-both      columns reordered AND re-spelled together (upper case, prefix "C_")
   phonon-all    q-perm, mode-perm and a weight factor composed in one copy
+Correspondence (stream "read-input"): the real `QHACalculator.read_input` on generated block lists (decreasing, increasing, reversed,
+one adjacent swap, repeated adjacent / apart, shuffled, 0/1 block, 1-ulp steps, ±0, NaN, inf) against the Lean model
+(`VolOrder.readInput`) AND against the interpreted translation of the method (`Generated.VolOrder.readInputSteps`), bit for bit.
 Oracle: every reported array (moduli both kinds on both bases, averages, velocities, V(T,P)) agrees to rounding
 (|Δ| <= 1e-8 of the family scale).  The theorems (Properties/C13.lean) carry the algebraic core: permutation / scale
 invariance of the weighted mode average, of the per-mode interpolation loop and of least squares.
@@ -28,8 +36,11 @@ ASSUMPTIONS = [
     "qha and scipy see the re-presented arrays too; their own order-(in)dependence is part of what is observed, not modelled",
 ]
 RTOL = 1e-8
-TRANSFORMS = ["q-perm", "mode-perm", "w-scale", "w-scale-2", "col-perm", "col-upper", "row-perm", "vol-rev", "vol-shuffle",
-              "w-normalise", "col-both", "phonon-all"]
+VOL_LISTINGS = ["vol-inc", "vol-rev", "vol-swap", "vol-shuffle"]           # re-listings of the data set's own (decreasing) blocks
+REPEAT_FAMILY = ["vol-repeat", "vol-eqswap", "vol-repeat-rev", "vol-repeat-apart"]
+TRANSFORMS = VOL_LISTINGS + REPEAT_FAMILY + ["q-perm", "mode-perm", "w-scale", "w-scale-2", "col-perm", "col-upper", "row-perm",
+                                             "w-normalise", "col-both", "phonon-all"]
+NODE_BASED = ("lagrange", "krogh", "pchip", "akima", "hermite")
 
 
 def transform(ds: synth.DataSet, name: str, rng) -> tuple:
@@ -68,12 +79,42 @@ def transform(ds: synth.DataSet, name: str, rng) -> tuple:
         if (p == numpy.arange(d.nv)).all() or (p == numpy.arange(d.nv)[::-1]).all():
             p = numpy.roll(numpy.arange(d.nv), 2)                # neither the listed nor the reversed order
         kw["row_perm"] = p.tolist()
-    elif name in ("vol-rev", "vol-shuffle"):
-        p = numpy.arange(d.nv)[::-1] if name == "vol-rev" else rng.permutation(d.nv)
-        if name == "vol-shuffle" and ((p == numpy.arange(d.nv)).all() or (p == numpy.arange(d.nv)[::-1]).all()):
-            p = numpy.roll(numpy.arange(d.nv), 2)
+    elif name in VOL_LISTINGS:
+        ident = numpy.arange(d.nv)
+        if name == "vol-rev": p = ident[::-1]
+        elif name == "vol-inc": p = numpy.argsort(d.volumes, kind="stable")              # listed by increasing volume
+        elif name == "vol-swap":
+            i = int(rng.integers(0, d.nv - 1)); p = ident.copy(); p[i], p[i + 1] = p[i + 1], p[i]
+        else:
+            p = rng.permutation(d.nv)
+            if (p == ident).all() or (p == ident[::-1]).all(): p = numpy.roll(ident, 2)
         kw["vol_perm"] = [int(x) for x in p]
     return d, kw
+
+
+def repeat_base(case, ds, rng):
+    """the data set with a repeated volume in its phonon file: block i+1 gets the volume of block i (own energy and frequencies); the
+    static table keeps its own, distinct volume column.  i is chosen so that for a node-thinning interpolator one of the two equal-volume
+    blocks sits on a node position ([::ceil(nv/order)])."""
+    d = copy.deepcopy(ds)
+    if d.static_volumes is None: d.static_volumes = numpy.array(ds.volumes, dtype=float).copy()
+    if case["interp"] in NODE_BASED:
+        interval = int(numpy.ceil(d.nv / case["order"]))
+        i = min(max(interval - 1, 0), d.nv - 2)
+    else:
+        i = int(rng.integers(0, d.nv - 1))
+    d.volumes = numpy.array(ds.volumes, dtype=float).copy()
+    d.volumes[i + 1] = d.volumes[i]
+    return d, i
+
+
+def repeat_listing(name, nv, i):
+    ident = list(range(nv))
+    if name == "vol-eqswap": p = ident[:]; p[i], p[i + 1] = p[i + 1], p[i]
+    elif name == "vol-repeat-rev": p = ident[::-1]
+    elif i + 2 < nv: p = ident[:i + 1] + ident[i + 2:] + [i + 1]     # vol-repeat-apart: the second of the pair goes to the end
+    else: p = [i] + ident[:i] + ident[i + 1:]                        #   (pair at the end: the first of the pair goes to the front)
+    return p
 
 
 def write(dirname, ds, kw):
@@ -127,12 +168,25 @@ def observe(ds, kw):
         return out
 
 
+def _family(k):
+    """the components of one elastic tensor are ONE family: shear and off-diagonal components are linear combinations of rotated
+    longitudinal ones, so the rounding noise of a small component has the scale of the largest one (a data set on which Krogh's
+    polynomial oscillates has c11 ~ 1e6 next to c15 ~ 1e-4: 1e-16 * 1e6 is 1e-5 of c15 — summation order, not presentation)"""
+    if k[:2] in ("cT", "cS"): return k[:2] + ("_tp" if k.endswith("_tp") else "")
+    return k
+
+
 def compare(a, b):
     """returns None if equal to rounding else (name, relerr)"""
     worst = None
+    scales = {}
+    for d in (a, b):
+        for k, v in d.items():
+            v = numpy.asarray(v, dtype=float); fin = v[numpy.isfinite(v)]
+            if fin.size: scales[_family(k)] = max(scales.get(_family(k), 0.0), float(numpy.max(numpy.abs(fin))))
     for k in a:
         if k not in b: return (k, "missing")
-        ok, err, scale = family_close(a[k], b[k], rtol=RTOL)
+        ok, err, scale = family_close(a[k], b[k], rtol=RTOL, scale=scales.get(_family(k)))
         if not ok and (worst is None or err > worst[1]):
             worst = (k, err)
     for k in b:
@@ -184,7 +238,9 @@ def evaluate(case, seed, which=None):
     fails, stats = [], {}
     if isinstance(base, tuple):
         return [("baseline-error:" + base[1], f"Calculator raised {base[1]} on the original presentation", base[2], None)], stats
-    for name in (which or TRANSFORMS):
+    names = list(which or TRANSFORMS)
+    for name in names:
+        if name in REPEAT_FAMILY: continue
         rng = make_rng(seed, f"C13/{case['idx']}/{name}")
         d2, kw = transform(ds, name, rng)
         if d2 is None: stats[name] = "n/a"; continue
@@ -199,24 +255,163 @@ def evaluate(case, seed, which=None):
             site = f"{name}:differs:{case['interp']}" if name.startswith("vol-") else f"{name}:differs"
             fails.append((site, f"re-presentation '{name}' changes {w[0]} by {w[1]} of its scale (interpolator {case['interp']})",
                           {"quantity": w[0], "relative_difference": w[1]}, name))
+    # ---- a phonon file with a repeated volume, and its re-listings
+    fam = [n for n in names if n in REPEAT_FAMILY]
+    if fam:
+        rd, i = repeat_base(case, ds, make_rng(seed, f"C13/{case['idx']}/vol-repeat"))
+        rbase = observe(rd, {})
+        if isinstance(rbase, tuple):
+            stats["vol-repeat"] = "rejected:" + rbase[1]            # a file with a repeated volume may be refused: nothing to compare with
+            for name in fam:
+                if name != "vol-repeat": stats[name] = "n/a"
+        else:
+            stats["vol-repeat"] = "accepted"
+            for name in fam:
+                if name == "vol-repeat": continue
+                obs = observe(rd, {"vol_perm": repeat_listing(name, rd.nv, i)})
+                if isinstance(obs, tuple):
+                    stats[name] = "rejected:" + obs[1]; continue
+                w = compare(rbase, obs)
+                stats[name] = "same" if w is None else f"differs:{w[0]}"
+                # NOT an oracle failure: a file with the same volume in two blocks is outside the data sets the property quantifies
+                # over ("as in C05 and the shipped examples": one spectrum per volume).  What happens is recorded in the statistics (and
+                # stated as theorem vol_relisting_repeated_may_differ: the order test cij calls is not strict, so equal-volume blocks
+                # may be exchanged, and position-thinning interpolators then see other nodes).
     return fails, stats
+
+
+# ----------------------------------------------------------------------------- correspondence: QHACalculator.read_input
+LISTINGS = ["decreasing", "increasing", "reversed", "adjacent-swap", "repeat-adjacent", "repeat-apart", "shuffled", "no-block", "one-block",
+            "ulp-steps", "signed-zero", "nan", "inf", "two-equal"]
+
+
+def gen_volume_list(kind, rng):
+    """a list of volumes of the named shape (floats exactly as handed to the method)"""
+    n = int(rng.integers(2, 9))
+    dec = numpy.sort(rng.uniform(50.0, 900.0, size=n))[::-1].copy()
+    if kind == "decreasing": return dec
+    if kind == "increasing": return dec[::-1].copy()
+    if kind == "reversed": return dec[::-1].copy()
+    if kind == "adjacent-swap":
+        i = int(rng.integers(0, n - 1)); v = dec.copy(); v[i], v[i + 1] = v[i + 1], v[i]; return v
+    if kind == "repeat-adjacent":
+        i = int(rng.integers(0, n - 1)); v = dec.copy(); v[i + 1] = v[i]; return v
+    if kind == "repeat-apart":
+        if n < 3: dec = numpy.array([300.0, 200.0, 100.0]); n = 3
+        v = dec.copy(); v[n - 1] = v[0]; return v
+    if kind == "shuffled": return rng.permutation(dec)
+    if kind == "no-block": return numpy.array([], dtype=float)
+    if kind == "one-block": return dec[:1].copy()
+    if kind == "ulp-steps":
+        x = float(rng.uniform(100.0, 500.0)); v = [x]
+        for _ in range(n - 1): v.append(float(numpy.nextafter(v[-1], [-numpy.inf, numpy.inf, v[-1]][int(rng.integers(0, 3))])))
+        return numpy.array(v)
+    if kind == "signed-zero": return numpy.array([[1.0, 0.0, -0.0, -1.0], [1.0, -0.0, 0.0, -1.0]][int(rng.integers(0, 2))])
+    if kind == "nan":
+        v = dec.copy(); v[int(rng.integers(0, n))] = numpy.nan; return v
+    if kind == "inf":
+        v = dec.copy(); v[[0, n - 1][int(rng.integers(0, 2))]] = [numpy.inf, -numpy.inf][int(rng.integers(0, 2))]; return v
+    if kind == "two-equal": x = float(rng.uniform(1.0, 9.0)); return numpy.array([x, x])
+    raise ValueError(kind)
+
+
+def real_read_input(nm, vols, energies, freqs, weights):
+    """the real method on a QHAInputData built in memory -> {"error": name} | arrays"""
+    from cij.core.qha_adapter import QHACalculator
+    from cij.io.traditional.models import QHAInputData, VolumeData, QPointData, QPointWeight
+    nv, nq, np_ = len(vols), len(weights), (len(freqs[0][0]) if len(vols) and len(weights) else 0)
+    inp = QHAInputData(nv, nq, np_, nm, max(np_ // 3, 1),
+                       [QPointWeight((0.0, 0.0, 0.0), float(w)) for w in weights],
+                       [VolumeData(0.0, float(vols[i]), float(energies[i]),
+                                   [QPointData((0.0, 0.0, 0.0), [float(x) for x in freqs[i][q]]) for q in range(nq)]) for i in range(nv)])
+    calc = QHACalculator({})
+    try:
+        with e2e.quiet():
+            calc.read_input(inp)
+    except Exception as ex:
+        return {"error": type(ex).__name__}
+    return {"nm": int(calc._formula_unit_number), "volumes": calc._volumes, "energies": calc._static_energies,
+            "frequencies": calc._frequencies, "weights": calc._q_weights}
+
+
+def _canon(real):
+    from harness.common import enc
+    if "error" in real: return real
+    def bits(a): return enc(numpy.asarray(a, dtype=float).tolist())
+    return {"nm": real["nm"], "volumes": bits(real["volumes"]), "energies": bits(real["energies"]),
+            "frequencies": bits(real["frequencies"]) if numpy.asarray(real["frequencies"]).size else [[] for _ in real["volumes"]] if len(real["volumes"]) else [],
+            "weights": bits(real["weights"])}
+
+
+def read_input_stream(ctx: Ctx, res: Result):
+    """real read_input / qha.tools.is_monotonic_decreasing  vs  model and interpreted translation, per listing shape"""
+    from harness.common import enc, Disagreement
+    import qha.tools
+    rng = make_rng(ctx.seed, "C13/read-input")
+    n = 60 if ctx.thorough() else 12
+    ops, reals, meta = [], [], []
+    for kind in LISTINGS:
+        for _ in range(n):
+            vols = gen_volume_list(kind, rng)
+            nq, np_ = int(rng.integers(1, 3)), 3 * int(rng.integers(1, 3))
+            energies = rng.uniform(-3.0, -1.0, size=len(vols))
+            freqs = rng.uniform(50.0, 900.0, size=(len(vols), nq, np_))
+            weights = rng.uniform(0.1, 4.0, size=nq)
+            nm = int(rng.integers(1, 5))
+            reals.append(real_read_input(nm, vols, energies, freqs, weights))
+            ops.append({"op": "c13.read_input", "nm": nm, "weights": enc(weights.tolist()),
+                        "blocks": [{"v": enc(float(vols[i])), "e": enc(float(energies[i])), "modes": enc(freqs[i].tolist())} for i in range(len(vols))]})
+            meta.append((kind, vols))
+    answers = ctx.driver.ask(ops)
+    mono_real = [bool(qha.tools.is_monotonic_decreasing(v)) for _, v in meta]
+    mono = ctx.driver.ask([{"op": "c13.monotonic", "arrays": [enc(numpy.asarray(v, dtype=float).tolist()) for _, v in meta]}])[0]
+    dist = {k: {} for k in LISTINGS}
+    for (kind, vols), real, ans, mr, mm in zip(meta, reals, answers, mono_real, mono):
+        res.evaluations += 1
+        want = _canon(real)
+        outcome = "rejected:" + real["error"] if "error" in real else "accepted"
+        dist[kind][outcome] = dist[kind].get(outcome, 0) + 1
+        ok = True
+        for side in ("model", "source"):
+            got = ans[side]
+            if "error" in want or "error" in got:
+                same = want.get("error") == got.get("error")
+            else:
+                same = all(want[k] == got.get(k) for k in ("nm", "volumes", "energies", "weights")) and \
+                    (want["frequencies"] == got.get("frequencies") or (not len(vols)))
+            if not same:
+                ok = False
+                res.disagreements.append(Disagreement(op="c13.read_input/" + side, input={"listing": kind, "volumes": [float(x) for x in vols]},
+                                                      impl=(real.get("error") or "accepted"), model=(got.get("error") or "accepted"),
+                                                      note=f"QHACalculator.read_input vs {side} on a '{kind}' list of volume blocks"))
+        if [mr, mr] != [bool(mm[0]), bool(mm[1])]:
+            ok = False
+            res.disagreements.append(Disagreement(op="c13.monotonic", input={"listing": kind, "volumes": [float(x) for x in vols]},
+                                                  impl=mr, model=mm, note="qha.tools.is_monotonic_decreasing vs model / operator read from the installed qha"))
+        if ok: res.traces_validated += 1
+        if kind not in ("decreasing", "no-block", "one-block"): res.distinct_nontrivial += 1
+    return dist
 
 
 def run(ctx: Ctx) -> Result:
     res = Result()
-    res.rule = ("case = (data set, re-presentation); data sets differ in interpolator/order/shape/system/law; 12 re-presentations each; "
-                "non-trivial = the re-presented files differ textually from the original and the calculation ran or was rejected")
+    res.rule = ("case = (data set, re-presentation) on the real Calculator; data sets differ in interpolator/order/shape/system/law; "
+                f"{len(TRANSFORMS)} re-presentations each (4 listings of the volume blocks, a repeated-volume file and 3 re-listings of it, "
+                "10 others); non-trivial = the re-presented files differ textually from the original and the calculation ran or was "
+                "rejected.  Plus the read-input stream: one case = one list of volume blocks through the real QHACalculator.read_input, "
+                "the model and the interpreted translation; non-trivial = not simply decreasing")
     seen = set()
     dist = {t: {} for t in TRANSFORMS}
+    dist["read-input"] = read_input_stream(ctx, res)
     for case in gen_cases(ctx):
         if ctx.time_left() < 40: res.notes.append("time budget reached"); break
         fails, stats = evaluate(case, ctx.seed)
         for t, s in stats.items():
             res.evaluations += 1
-            key = s.split(":")[0]
+            key = s.split(":")[0] + (":" + s.split(":")[1] if s.startswith("rejected:") else "")
             dist[t][key] = dist[t].get(key, 0) + 1
             if s != "n/a": res.distinct_nontrivial += 1
-            if s == "same" or s.startswith("rejected"): res.traces_validated += 1
+            if s in ("same", "accepted") or s.startswith("rejected"): res.traces_validated += 1
         if len(res.samples) < 2: res.samples.append({"case": case, "outcomes": stats})
         for site, what, obs, name in fails:
             if site in seen: continue
@@ -224,6 +419,11 @@ def run(ctx: Ctx) -> Result:
             res.oracle_failures.append(OracleFailure(what=what, input={"case": case, "seed": ctx.seed, "transform": name}, observed=obs,
                                                      expected="identical results to rounding (1e-8 of scale)", site=site))
     res.distribution = dist
+    # every run must have listed the volume blocks increasing, reversed, with one adjacent swap and with a repeated volume
+    vol = {t: dist[t] for t in VOL_LISTINGS + REPEAT_FAMILY}
+    missing = [t for t in ("vol-inc", "vol-rev", "vol-swap", "vol-repeat") if not sum(v for k, v in dist[t].items() if k != "n/a")]
+    if missing: res.notes.append("volume-block listings NOT exercised in this run: " + ", ".join(missing))
+    res.extra["volume_block_listings"] = {"end_to_end": vol, "read_input": dist["read-input"], "missing": missing}
     return res
 
 
